@@ -129,7 +129,7 @@ class DerivePlugin(Plugin):
 class C09(DerivePlugin):
     pid = "C09"
     prop = 9
-    counts = {"quick": 1500, "thorough": 50000}
+    counts = {"quick": 1500, "thorough": 150000}
     rule = ("case = (1..4 strict converters drawn from shared pools so that they overlap on CURIE prefixes, URI prefixes, synonyms and letter case "
             "(go/GO/Go, strasse foldings, upper-cased URI prefixes), chain with both case-sensitivity modes) or (one converter, a prefix subset P of "
             "canonical prefixes, synonyms, unknown strings or the empty set, get_subconverter). Observed: ValueError / the result's records, "
@@ -217,7 +217,7 @@ def gen_curie_remapping(rng, recs):
 class C11(DerivePlugin):
     pid = "C11"
     prop = 11
-    counts = {"quick": 2500, "thorough": 80000}
+    counts = {"quick": 2500, "thorough": 250000}
     rule = ("case = (strict converter of 1..5 records with synonyms, remapping dictionary over known canonical prefixes, known synonyms and unknown "
             "strings: simple renamings, chains a->b->c, swaps, remappings onto own / foreign synonyms and onto other records' canonical prefixes, "
             "partially applicable chains (unknown key), duplicate values; both dictionary orders). Observed: the documented error class or the "
@@ -271,7 +271,7 @@ def gen_uri_mapping(rng, recs, by_curie):
 class C12(DerivePlugin):
     pid = "C12"
     prop = 12
-    counts = {"quick": 2500, "thorough": 80000}
+    counts = {"quick": 2500, "thorough": 250000}
     rule = ("case = (strict converter of 1..5 records with URI-prefix synonyms, mapping old URI prefix -> new URI prefix (remap_uri_prefixes) or "
             "CURIE prefix / synonym -> new URI prefix (rewire); values fresh, the record's own canonical URI prefix, its own synonym, another record's "
             "URI prefix; 85 % injective, 10 % of the URI remappings transitive). For rewire the result is rewired again with the same mapping. "
@@ -308,7 +308,7 @@ class C10(DerivePlugin):
     pid = "C10"
     entry = 10
     prop = 10
-    counts = {"quick": 1200, "thorough": 40000}
+    counts = {"quick": 1200, "thorough": 120000}
     rule = ("case = (strict input converter(s), one of chain / get_subconverter / remap_curie_prefixes / remap_uri_prefixes / rewire / "
             "discover(converter=...), then 0..4 follow-up add_record / add_prefix calls (mostly merge=True, overlapping the derived records) on the "
             "derived converter). Every input is snapshotted (records, get_prefixes, get_uri_prefixes, bimap, the four index dictionaries, trie "
